@@ -1,4 +1,5 @@
 """C15 — Ising-to-generic sampler conversion preserves model and trajectory."""
+from checks import pure_fns
 LEAN_TARGETS = ["QmcProps.C15", "drv_c15"]
 BINS = ["c15"]
 
@@ -36,6 +37,7 @@ RULE = ("random TFIM graphs (2..6 spins; chain with optional ring/chord/repeated
 
 
 def main(ck):
+    pure_fns.run(ck)   # source->Lean translation of pure functions, re-proved equal to the hand model
     if ck.lake_build(LEAN_TARGETS):
         ck.audit("QmcProps.C15", ["Qmc.C15." + t for t in THEOREMS])
     if ck.cargo_build(BINS):
